@@ -194,7 +194,7 @@ class URI(with_metaclass(URIType)):
 		<scheme>://<username>:<password>@<host>:<port>/<path>?<query>#<fragment>
 		[<scheme>:][//[<username>[:<password>]@][<host>][:<port>]/]<path>[?<query>][#<fragment>]
 		"""
-		if type(self) is URI and b':' in uri:
+		if type(self) is URI and b':' in uri.partition(b'/')[0]:
 			self.scheme = uri.split(b':', 1)[0].lower()
 			if type(self) is not URI:
 				return self.parse(uri)
@@ -212,7 +212,7 @@ class URI(with_metaclass(URIType)):
 		if not authority_exists and uri.startswith(b'//'):
 			uri = uri[2:]
 			authority_exists = True
-		if not authority_exists and b':' in uri:
+		if not authority_exists and b':' in uri.partition(b'/')[0]:  # a colon after the first slash belongs to the path (RFC 3986 Section 3.3)
 			scheme, __, uri = uri.partition(b':')
 		authority, path = b'', uri
 		if authority_exists:
